@@ -59,10 +59,14 @@ def random_component(rng, name='synth', vp=None, uq=True):
         k = VaporPressureConstants(a=rng.uniform(5.5, 8.0), b=rng.uniform(-2200, -900), c=rng.uniform(-70, -10), type='antoine')
     else:
         k = VaporPressureConstants(a=rng.uniform(14, 20), b=rng.uniform(-6000, -3500), c=rng.uniform(-3e5, 1e5), type='frost')
+    hc = [rng.uniform(20, 250), rng.uniform(-1, 1), rng.uniform(-3e-3, 3e-3), rng.uniform(-3e-6, 3e-6)]
+    if rng.random() < 0.3:          # exact zeros (also interior ones) are legitimate coefficients
+        for i in range(4):
+            if rng.random() < 0.4:
+                hc[i] = 0.0
     return pv.Component(
         name=name, molecular_weight=loguniform(rng, 10, 400), vapour_pressure_constants=k,
-        heat_capacity_constants=HeatCapacityConstants(a=rng.uniform(20, 250), b=rng.uniform(-1, 1),
-                                                      c=rng.uniform(-3e-3, 3e-3), d=rng.uniform(-3e-6, 3e-6)),
+        heat_capacity_constants=HeatCapacityConstants(a=hc[0], b=hc[1], c=hc[2], d=hc[3]),
         uniquac_constants=UNIQUACConstants(r=rng.uniform(0.8, 5), q_geometric=rng.uniform(0.8, 5),
                                            q_interaction=rng.choice([None, rng.uniform(0.5, 4)])) if uq else None)
 
